@@ -38,6 +38,8 @@ CONSTANTS Dev_h12,     \* TRUE = the repaired defect: R<=4 file key derived from
           Dev_drop,    \* TRUE = as the code is: revisions 2-4 DROP every character of a password that PDFDocEncoding lacks
           Dev_cryptv,  \* TRUE = as the code is: a stream's Crypt filter entry is honoured below V 4 (no crypt filters there: Identity)
           Dev_mdstr,   \* TRUE = as the code is: EncryptMetadata false also skips the strings of the metadata stream's dictionary
+          Dev_osres,   \* TRUE = as the code is: Decrypt's re-expansion of object streams brings back members the caller deleted
+          Dev_cind,    \* TRUE = as the code is: Crypt filter parameters given through an indirect object count as absent (Identity)
           Dev_osrep,   \* TRUE = a seeded defect (never in the code): Decrypt's re-expansion of object streams REPLACES live objects
           Dev_dparr    \* TRUE = the repaired defect: a Crypt override given in the array form of DecodeParms is ignored
 
@@ -111,7 +113,8 @@ Dec(m, k, pl) ==
 (* <<[pos, obj]>> = the member at position pos as it was stored (its live    *)
 (* copy is objs[pos]); <<>> for all other streams.                          *)
 
-NoCrypt == [f |-> "none", n |-> ""]
+\* (ind: the decode parameters, or the Name in them, are given through an indirect object)
+NoCrypt == [f |-> "none", n |-> "", ind |-> FALSE]
 
 \* cross-reference bookkeeping: kept in a loaded Document, never written by save
 Bookkeeping == {"XRef", "ObjStm"}
@@ -168,6 +171,7 @@ HiddenClass(cfg, it) ==
     IF it.kind = "str" /\ it.insd /\ it.otyp = "Metadata" /\ ~cfg.em THEN "metadata.streamdict"
     ELSE IF it.kind = "stream" /\ it.crypt.f # "none" /\ cfg.V < 4 THEN "crypt.belowV4"
     ELSE IF it.kind = "str" /\ it.insd THEN "streamdict.string"
+    ELSE IF it.kind = "stream" /\ it.crypt.ind THEN "crypt.indirect"
     ELSE IF it.kind = "stream" /\ it.crypt.f = "arr" THEN "crypt.dparray"
     ELSE IF it.inmd /\ ~cfg.em THEN "metadata.nonstream"
     ELSE "hidden.other"
@@ -176,7 +180,8 @@ HiddenFails(cfg, items) ==
     {HiddenClass(cfg, items[i]) : i \in {x \in 1..Len(items) : MustHide(cfg, items[x]) /\ items[x].present /\ items[x].eq}}
 
 \* objects that save never writes (cross-reference bookkeeping, C01) are not demanded back from a file
-Demanded(it, viaFile) == ~(viaFile /\ it.otyp \in Bookkeeping)
+\* (gone: the caller deleted the object the item was in - it has to stay away)
+Demanded(it, viaFile) == ~(viaFile /\ it.otyp \in Bookkeeping) /\ ~it.gone
 
 AllEq(items, viaFile) ==
     \A i \in 1..Len(items) : Demanded(items[i], viaFile) => items[i].present /\ items[i].eq
@@ -206,6 +211,11 @@ Wrong(rel) == rel.u = "diff" /\ rel.o = "diff"
 \* why a right password failed: the narrow classes of the confirmed deviations
 \* a password with characters PDFDocEncoding lacks is involved (the narrow class of Dev_drop)
 Unencodable(cfg, rel) == cfg.R <= 4 /\ (~rel.rep \/ ~cfg.urep \/ ~cfg.orep)
+\* Revisions 2-4 only: an empty owner password means "no owner password", the user password stands in for it (ISO
+\* 32000-1 Algorithm 3 a; rel.o is taken against that).  Algorithms 8 / 9 of revisions 5-6 have no such step: there an
+\* empty owner password IS the owner password (the empty password opens the document, and rightly so).
+WrongAcceptedClass(cfg, rel, dflt) ==
+    IF Unencodable(cfg, rel) THEN "pw.unencodable.R234" ELSE dflt
 
 RightFailClass(cfg, rel, dflt) ==
     IF Unencodable(cfg, rel) THEN "pw.unencodable.R234"
@@ -239,7 +249,8 @@ Resync(cfg, ev, viaFile) == IF ~ev.tenc /\ ev.nobj = cfg.nobj0 /\ AllEq(ev.items
 \* was read from a file of several revisions with object streams
 RestoredTagsR(cfg, ev, viaFile, content, rev) ==
     LET bad == {i \in 1..Len(ev.items) : Demanded(ev.items[i], viaFile) /\ ~(ev.items[i].present /\ ev.items[i].eq)} IN
-    (IF ev.tenc \/ ev.nobj # cfg.nobj0 THEN {"restored.encdict"} ELSE {})
+    (IF \E i \in 1..Len(ev.items) : ev.items[i].gone /\ ev.items[i].present THEN {"objstm.member.resurrected"}
+     ELSE IF ev.tenc \/ ev.nobj # cfg.nobj0 THEN {"restored.encdict"} ELSE {})
     \cup (IF bad = {} THEN {}
           \* only copies held by object stream containers came back, everything else is fine: its own class
           ELSE IF (\A i \in bad : ev.items[i].osm) /\ (rev \/ \E i \in 1..Len(ev.items) : ~ev.items[i].osm /\ ev.items[i].len > 0 /\ ev.items[i].otyp \notin Bookkeeping)
@@ -270,7 +281,7 @@ JudgeDecrypt(cfg, j, ev) ==
               IF t = {} THEN Vd(TRUE, {"ok-restored"}, [j EXCEPT !.mem = "plain"])
               ELSE Vd(FALSE, RevClass(j, t), [j EXCEPT !.mem = Resync(cfg, ev, j.via)])
     ELSE IF Wrong(ev.rel)
-    THEN IF ev.res = "Ok" THEN Vd(FALSE, {IF Unencodable(cfg, ev.rel) THEN "pw.unencodable.R234" ELSE "rejects.accepted"}, [j EXCEPT !.mem = Resync(cfg, ev, j.via)])
+    THEN IF ev.res = "Ok" THEN Vd(FALSE, {WrongAcceptedClass(cfg, ev.rel, "rejects.accepted")}, [j EXCEPT !.mem = Resync(cfg, ev, j.via)])
          ELSE IF ~ev.same THEN Vd(FALSE, {"rejects.mutated"}, [j EXCEPT !.mem = "lost"])
          ELSE Vd(TRUE, {"ok-rejected"}, j)
     ELSE \* an equivalent password: acceptance is not demanded, but an accepted one must restore
@@ -290,7 +301,7 @@ JudgeAuth(cfg, j, ev) ==
                   ELSE IF ev.call = "AuthOwner" THEN [ev.rel EXCEPT !.u = "diff"] ELSE ev.rel
          IN IF must /\ ev.res # "Ok"
             THEN Vd(FALSE, {IF cfg.R >= 5 \/ Unencodable(cfg, r) THEN RightFailClass(cfg, r, "either.auth.rejected") ELSE "either.auth.rejected"}, j)
-            ELSE IF Wrong(ev.rel) /\ ev.res = "Ok" THEN Vd(FALSE, {IF Unencodable(cfg, ev.rel) THEN "pw.unencodable.R234" ELSE "rejects.auth.accepted"}, j)
+            ELSE IF Wrong(ev.rel) /\ ev.res = "Ok" THEN Vd(FALSE, {WrongAcceptedClass(cfg, ev.rel, "rejects.auth.accepted")}, j)
             ELSE Vd(TRUE, {IF must THEN "ok-auth" ELSE IF Wrong(ev.rel) THEN "ok-auth-rejected" ELSE "ok-unjudged"}, j)
 
 JudgeSave(cfg, j, ev) ==
@@ -310,7 +321,7 @@ JudgeLoad0(cfg, j0, ev) ==
          THEN LET t == (IF ev.nobj # cfg.nobj0 + 1 /\ ~j.rev THEN {"viafile.objects"} ELSE {})
                        \cup {"viafile." \o c : c \in HiddenFails(cfg, ev.items) \cap {"hidden.other"}}   \* (the narrow classes were reported when Encrypt was judged)
               IN Vd(t = {}, IF t = {} THEN {"ok-loaded-enc"} ELSE t, [j EXCEPT !.mem = IF t = {} THEN "enc" ELSE "lost"])
-         ELSE IF Wrong(cfg.e) THEN Vd(FALSE, {IF Unencodable(cfg, cfg.e) THEN "pw.unencodable.R234" ELSE "rejects.load.autodecrypt"}, [j EXCEPT !.mem = Resync(cfg, ev, TRUE)])
+         ELSE IF Wrong(cfg.e) THEN Vd(FALSE, {WrongAcceptedClass(cfg, cfg.e, "rejects.load.autodecrypt")}, [j EXCEPT !.mem = Resync(cfg, ev, TRUE)])
          ELSE LET t == RestoredTagsR(cfg, ev, TRUE, LoadFailClass(cfg, "restored.content"), j.rev) IN
               IF t = {} THEN Vd(TRUE, {"ok-loaded-autodecrypted"}, [j EXCEPT !.mem = "plain"])
               ELSE Vd(FALSE, RevClass(j, {IF c \in {"restored.content", "restored.encdict"} THEN "viafile." \o c ELSE c : c \in t}), [j EXCEPT !.mem = Resync(cfg, ev, TRUE)])
@@ -335,7 +346,9 @@ JudgeSaveOther(cfg, j, ev) ==
     ELSE IF ev.res = "Ok" /\ ev.same THEN Vd(TRUE, {"ok-saved-inc"}, [j EXCEPT !.inc = TRUE])
          ELSE Vd(TRUE, {IF ev.same THEN "ok-refused" ELSE "ok-unjudged"}, [j EXCEPT !.mem = IF ev.same THEN @ ELSE "lost"])
 
-Judge(cfg, j, ev) ==
+\* j.del: objects the caller deleted since the run began (the document is that much smaller)
+Judge(cfg0, j, ev) ==
+    LET cfg == [cfg0 EXCEPT !.nobj0 = @ - j.del] IN
     CASE ev.call = "Encrypt"   -> JudgeEncrypt(cfg, j, ev)
       [] ev.call = "Decrypt"   -> JudgeDecrypt(cfg, j, ev)
       [] ev.call \in {"AuthUser", "AuthOwner", "Auth"} -> JudgeAuth(cfg, j, ev)
@@ -355,9 +368,12 @@ Judge(cfg, j, ev) ==
       [] ev.call = "Edit"      -> LET jd == [j EXCEPT !.disk = IF ev.same \/ @ = "none" THEN @ ELSE "lost"] IN
                                   IF j.mem = "plain" /\ ev.res = "Ok" /\ ~ev.tenc /\ AllEq(ev.items, j.via) THEN Vd(TRUE, {"ok-edit"}, jd)
                                   ELSE Vd(TRUE, {"ok-unjudged"}, [jd EXCEPT !.mem = IF ev.same THEN j.mem ELSE "lost"])
+      [] ev.call = "Delete"    -> LET jd == [j EXCEPT !.disk = IF ev.same \/ @ = "none" THEN @ ELSE "lost", !.del = IF ev.res = "Ok" /\ ~ev.same THEN @ + 1 ELSE @] IN
+                                  IF j.mem = "plain" /\ ev.res = "Ok" /\ ~ev.tenc /\ AllEq(ev.items, j.via) THEN Vd(TRUE, {"ok-delete"}, jd)
+                                  ELSE Vd(TRUE, {"ok-unjudged"}, [jd EXCEPT !.mem = IF ev.same THEN j.mem ELSE "lost"])
       [] OTHER                 -> Vd(FALSE, {"unknown.call"}, j)
 
-J0 == [mem |-> "plain", disk |-> "none", via |-> FALSE, st |-> FALSE, rev |-> FALSE, inc |-> FALSE]
+J0 == [mem |-> "plain", disk |-> "none", via |-> FALSE, st |-> FALSE, rev |-> FALSE, inc |-> FALSE, del |-> 0]
 
 \* The clauses by name (for the reader; Judge is their conjunction applied to one call):
 \*   Restored : Decrypt with a right password returns Ok, every item equals its plaintext, no /Encrypt, no extra object
@@ -381,6 +397,7 @@ ImplNamed(st, name) ==          \* override: crypt_filters.get(name) ... unwrap_
 
 ImplStreamM(st, crypt) ==
     CASE st.V < 4 /\ ~Dev_cryptv -> ImplDefault(st, st.stmf)   \* repaired: the override exists from V 4 on only
+      [] crypt.f # "none" /\ crypt.ind /\ Dev_cind -> "Identity"   \* a Reference is neither a dictionary nor a name: "no parameters"
       [] crypt.f = "name"   -> ImplNamed(st, crypt.n)
       [] crypt.f = "noname" -> "Identity"
       [] crypt.f = "arr"    -> IF Dev_dparr THEN ImplDefault(st, st.stmf) ELSE ImplNamed(st, crypt.n)
@@ -397,7 +414,7 @@ Exempt(st, o) ==
 
 RECURSIVE WalkE(_, _, _)
 WalkE(st, id, o) ==             \* encrypt_object
-    IF o.k \in {"other", "encdict"} \/ Exempt(st, o) THEN o
+    IF o.k \in {"other", "encdict", "gone"} \/ Exempt(st, o) THEN o
     ELSE IF o.k \in {"arr", "dict"} THEN [o EXCEPT !.v = [i \in DOMAIN o.v |-> WalkE(st, id, o.v[i])]]
     ELSE IF o.k = "str" THEN [o EXCEPT !.pl = Enc(ImplDefault(st, st.strf), <<st.key, id>>, o.pl)]
     ELSE [o EXCEPT !.pl = IF MetaKeep(st, o) THEN @ ELSE Enc(ImplStreamM(st, o.crypt), <<st.key, id>>, o.pl),
@@ -414,7 +431,7 @@ WalkDSeq(st, id, s) ==
     IN F[Len(s)]
 
 WalkD(st, id, o) ==
-    IF o.k \in {"other", "encdict"} \/ Exempt(st, o) THEN [o |-> o, err |-> ""]
+    IF o.k \in {"other", "encdict", "gone"} \/ Exempt(st, o) THEN [o |-> o, err |-> ""]
     ELSE IF o.k \in {"arr", "dict"} THEN LET r == WalkDSeq(st, id, o.v) IN [o |-> [o EXCEPT !.v = r.v], err |-> r.err]
     ELSE IF o.k = "str" THEN LET r == Dec(ImplDefault(st, st.strf), <<st.key, id>>, o.pl) IN [o |-> [o EXCEPT !.pl = r.pl], err |-> r.err]
     ELSE LET rd == IF Dev_h13 THEN [v |-> o.d, err |-> ""] ELSE WalkDSeq(st, id, o.d) IN
@@ -497,7 +514,12 @@ StepDecrypt(cfg, s, pw) ==
              ghosts == UNION {{r.v[i].mem[x] : x \in DOMAIN r.v[i].mem} :
                               i \in {x \in 1..n : r.v[x].k = "stream" /\ r.v[x].typ = "ObjStm" /\ IsPlain(r.v[x].pl)}}
              merged == [i \in 1..n |->
-                          IF Dev_osrep /\ \E g \in ghosts : g.pos = i THEN (CHOOSE g \in ghosts : g.pos = i).obj ELSE r.v[i]]
+                          \* an object the caller deleted ([k |-> "gone", there |-> FALSE, was]) is absent: or_insert puts the copy back
+                          IF (Dev_osres \/ Dev_osrep) /\ r.v[i].k = "gone" /\ ~r.v[i].there /\ \E g \in ghosts : g.pos = i
+                          THEN [k |-> "gone", there |-> TRUE, was |-> (CHOOSE g \in ghosts : g.pos = i).obj]
+                          ELSE IF r.v[i].k = "gone" THEN r.v[i]
+                          ELSE IF Dev_osrep /\ \E g \in ghosts : g.pos = i THEN (CHOOSE g \in ghosts : g.pos = i).obj
+                          ELSE r.v[i]]
          IN IF r.err # "" THEN [s EXCEPT !.objs = r.v, !.res = Err(r.err)]
             ELSE [s EXCEPT !.objs = [i \in 1..(n - 1) |-> IF i < s.tenc THEN merged[i] ELSE merged[i + 1]],
                            !.tenc = 0, !.enc = NoEnc, !.res = Ok]
@@ -519,6 +541,11 @@ Editable(s, pos) ==
     /\ s.tenc = 0 /\ pos \in 1..Len(s.objs)
     /\ s.objs[pos].k \in {"str", "arr", "dict", "stream"}
     /\ s.objs[pos].k = "stream" => s.objs[pos].typ \notin Bookkeeping
+
+\* the caller removes a (non-stream) object from the unencrypted document
+Deletable(s, pos) == s.tenc = 0 /\ pos \in 1..Len(s.objs) /\ s.objs[pos].k \in {"str", "arr", "dict"}
+StepDelete(cfg, s, pos) ==
+    [s EXCEPT !.res = Ok, !.objs = [i \in DOMAIN s.objs |-> IF i = pos THEN [k |-> "gone", there |-> FALSE, was |-> s.objs[i]] ELSE s.objs[i]]]
 
 StepEdit(cfg, s, pos) ==
     [s EXCEPT !.res = Ok,
@@ -556,6 +583,7 @@ Step(cfg, s, c) ==
       [] c.call = "Load"      -> StepLoad(cfg, s)
       [] c.call = "Edit"      -> StepEdit(cfg, s, c.pos)
       [] c.call = "Rekey"     -> StepRekey(cfg, s)
+      [] c.call = "Delete"    -> StepDelete(cfg, s, c.pos)
 
 \* which calls the drivers issue in which state (Encrypt needs a state, Load a file)
 Callable(s, c) ==
@@ -563,6 +591,7 @@ Callable(s, c) ==
       [] c.call = "Load"    -> s.disk # NoDisk
       [] c.call = "Edit"    -> Editable(s, c.pos)
       [] c.call = "Rekey"   -> s.tenc = 0
+      [] c.call = "Delete"  -> Deletable(s, c.pos)
       [] OTHER              -> TRUE
 
 -----------------------------------------------------------------------------
@@ -572,7 +601,7 @@ Callable(s, c) ==
 
 Item(kind, insd, otyp, inmd, osm, crypt, pl) ==
     [kind |-> kind, insd |-> insd, otyp |-> otyp, inmd |-> inmd, osm |-> osm, crypt |-> crypt, len |-> pl.n0,
-     eq |-> IsPlain(pl), present |-> TRUE]
+     eq |-> IsPlain(pl), present |-> TRUE, gone |-> FALSE]
 
 RECURSIVE ItemsOf(_, _, _, _, _)
 ItemsSeq(s, insd, otyp, inmd, osm) ==
@@ -583,6 +612,9 @@ ItemsOf(o, insd, otyp, inmd, osm) ==
       [] o.k = "arr"    -> ItemsSeq(o.v, insd, otyp, inmd, osm)
       [] o.k = "dict"   -> ItemsSeq(o.v, insd, otyp, inmd \/ o.typ = "Metadata", osm)
       [] o.k = "stream" -> <<Item("stream", FALSE, o.typ, FALSE, osm, o.crypt, o.pl)>> \o ItemsSeq(o.d, TRUE, o.typ, FALSE, osm)
+      \* a deleted object keeps its item slots: absent, or (there) back again
+      [] o.k = "gone"   -> LET its == ItemsOf(o.was, insd, otyp, inmd, osm) IN
+                           [i \in DOMAIN its |-> [its[i] EXCEPT !.gone = TRUE, !.present = o.there, !.eq = o.there /\ @]]
       [] OTHER          -> <<>>
 
 \* positions of the objects some container of the document holds a copy of
@@ -595,7 +627,8 @@ Items(objs) ==
     IN F[Len(objs)]
 
 \* bookkeeping objects (typed /XRef, /ObjStm; never written by save) are not counted
-NObj(objs) == Cardinality({i \in 1..Len(objs) : ~(objs[i].k \in {"stream", "dict"} /\ objs[i].typ \in Bookkeeping)})
+NObj(objs) == Cardinality({i \in 1..Len(objs) : ~(objs[i].k \in {"stream", "dict"} /\ objs[i].typ \in Bookkeeping)
+                                              /\ ~(objs[i].k = "gone" /\ ~objs[i].there)})
 
 \* the observation record of a call that led from s to t
 Observe(s, t, c) ==
